@@ -63,14 +63,14 @@ Definition duckdb_max_width : Z := 38.
 Definition decimal_type_ok (w s : Z) : bool := (1 <=? w) && (w <=? duckdb_max_width) && (0 <=? s) && (s <=? w).
 
 Inductive run_outcome :=
-  | CfgError (v : cfgvar)          (* documented configuration error 0-4-1-1 *)
+  | CfgRejected (v : cfgvar)          (* documented configuration error 0-4-1-1 *)
   | RawBinder                      (* raw duckdb.BinderException escapes run() *)
   | CfgOk (w s : Z).               (* Number columns are DECIMAL(w,s) *)
 
 Definition run_config (f : option Z -> option Z -> globals -> cfg_result) (ew es : option Z) (g : globals)
   : run_outcome * globals :=
   match f ew es g with
-  | Rejected v g' => (CfgError v, g')
+  | Rejected v g' => (CfgRejected v, g')
   | Accepted g' => (if decimal_type_ok (g_w g') (g_s g') then CfgOk (g_w g') (g_s g') else RawBinder, g')
   end.
 
@@ -80,6 +80,14 @@ Fixpoint run_sequence (f : option Z -> option Z -> globals -> cfg_result) (g : g
   match settings with
   | [] => []
   | (ew, es) :: t => let '(o, g') := run_config f ew es g in o :: run_sequence f g' t
+  end.
+
+(* the module globals after each of those runs *)
+Fixpoint run_sequence_states (f : option Z -> option Z -> globals -> cfg_result) (g : globals)
+         (settings : list (option Z * option Z)) : list (Z * Z) :=
+  match settings with
+  | [] => []
+  | (ew, es) :: t => let g' := snd (run_config f ew es g) in (g_w g', g_s g') :: run_sequence_states f g' t
   end.
 
 (* --- the regenerated function table (Gen/Config.v) and its encoding *)
@@ -129,13 +137,17 @@ Definition load (w s m e : Z) : option Z :=
 Definition dec_add (a b : Z) : Z := a + b.
 Definition dec_sub (a b : Z) : Z := a - b.
 
-(* DuckDB types DECIMAL(w,s) +/- DECIMAL(w,s) as DECIMAL(min(38, w+1), s); at w = 38 the result can overflow *)
-Definition result_width (w : Z) : Z := Z.min duckdb_max_width (w + 1).
+(* DuckDB (observed on every width 6..38 by the correspondence; BindDecimalAddSubtract) types DECIMAL(w,s) +/- DECIMAL(w,s)
+   as DECIMAL(w+1,s), except that it neither widens past the int64 boundary (w = 18) nor past the maximal width (w = 38):
+   there the result keeps width w and the operation is overflow-checked *)
+Definition duckdb_int64_width : Z := 18.
+Definition result_width (w : Z) : Z :=
+  if (w =? duckdb_int64_width) || (w =? duckdb_max_width) then w else w + 1.
 
 Inductive case_outcome :=
-  | OConfig (o : run_outcome)      (* the run stops at the configuration (CfgError / RawBinder) *)
+  | OConfig (o : run_outcome)      (* the run stops at the configuration (CfgRejected / RawBinder) *)
   | OLoadReject                    (* an input does not fit DECIMAL(w,s): DataLoadError *)
-  | OOverflow                      (* the exact result needs more than 38 digits *)
+  | OOverflow                      (* the exact result does not fit the result type: raw duckdb.OutOfRangeException *)
   | OValue (s v : Z).              (* result v / 10^s *)
 
 Definition binop_case (sub : bool) (o : run_outcome) (m1 e1 m2 e2 : Z) : case_outcome :=
@@ -147,5 +159,53 @@ Definition binop_case (sub : bool) (o : run_outcome) (m1 e1 m2 e2 : Z) : case_ou
           if fits (result_width w) r then OValue s r else OOverflow
       | _, _ => OLoadReject
       end
+  | _ => OConfig o
+  end.
+
+(* --- input literals.  Plain m e = m / 10^e (e >= 0).  Sci M x = M * 10^x: exponent notation, M = all mantissa digits as an
+       integer.  Python floats in a DataFrame reach DuckDB as CAST(CAST(col AS VARCHAR) AS DECIMAL(w,s)) and doubles below
+       1e-4 are rendered in exponent notation; CSV text may use it as well. *)
+Inductive lit := Plain (m e : Z) | Sci (M x : Z).
+
+Fixpoint ndigits_pos (fuel : nat) (n : Z) : Z :=
+  match fuel with O => 0 | S f => if n <=? 0 then 0 else 1 + ndigits_pos f (n / 10) end.
+Definition ndigits (n : Z) : Z := ndigits_pos (S (Z.to_nat (Z.log2 (Z.abs n + 1)))) (Z.abs n).
+Definition leading_digit (n : Z) : Z := Z.abs n / 10 ^ (ndigits n - 1).
+
+(* documented: the exact value rounded to the scale *)
+Definition to_scale_lit_spec (s : Z) (l : lit) : Z :=
+  match l with
+  | Plain m e => to_scale s m e
+  | Sci M x => if x <=? 0 then to_scale s M (- x) else to_scale s (M * 10 ^ x) 0
+  end.
+
+(* faithful (observed on DuckDB 1.5, VARCHAR -> DECIMAL): when k = -(x+s) digits of the mantissa have to be dropped the cast
+   divides by 10 k times but stops as soon as the quotient is 0, rounding on the last digit it removed: with k greater than
+   the number of mantissa digits the LEADING digit decides and e.g. 5e-30 becomes one unit of the last kept decimal.
+   (mantissas with more decimals than the scale are outside this model) *)
+Definition to_scale_lit_impl (s : Z) (l : lit) : Z :=
+  match l with
+  | Plain m e => to_scale s m e
+  | Sci M x =>
+      let k := - (x + s) in
+      if k <=? 0 then M * 10 ^ (- k)
+      else if k <=? ndigits M then round_half_away M (10 ^ k)
+      else if 5 <=? leading_digit M then Z.sgn M else 0
+  end.
+
+Definition load_lit (f : Z -> lit -> Z) (w s : Z) (l : lit) : option Z :=
+  let v := f s l in if fits w v then Some v else None.
+
+Definition binop_vals (sub : bool) (w s : Z) (la lb : option Z) : case_outcome :=
+  match la, lb with
+  | Some a, Some b =>
+      let r := if sub then dec_sub a b else dec_add a b in
+      if fits (result_width w) r then OValue s r else OOverflow
+  | _, _ => OLoadReject
+  end.
+
+Definition binop_case_lit (f : Z -> lit -> Z) (sub : bool) (o : run_outcome) (l1 l2 : lit) : case_outcome :=
+  match o with
+  | CfgOk w s => binop_vals sub w s (load_lit f w s l1) (load_lit f w s l2)
   | _ => OConfig o
   end.
